@@ -85,7 +85,7 @@ def good_record(rng, ids, family, size=None):
         return {"null": None, "record": {}, "fixed": b""}[family]
     size = size or rng.choice(["small", "small", "large"])
     i = ids.next()
-    return {"id": i, "s": ("x" * 5000 if size == "large" else "s%d" % i),
+    return {"id": i, "s": ("x" * 5000 if size == "large" else ("y%d" % i) * 30000 if size == "huge" else "s%d" % i),
             "arr": [i % 7, 1, 2][: rng.randint(0, 3)], "e": rng.choice(["R", "G", "B"]),
             "fx": bytes([i % 256, 1, 2, 3]), "u": rng.choice([None, "u", i]), "fl": float(i % 100),
             "e2": ["R", "G", "B"][i % 3], "fx2": rng.choice([None, bytes([9, 8, 7, i % 256])]), "last": -i}
@@ -124,6 +124,11 @@ BAD_KINDS = ["bad_first", "bad_last", "bad_arr3", "bad_enum", "bad_fixed", "miss
              "bad_float_overflow", "bad_float_type", "bad_union", "bad_array_type", "bad_fixed_type"]
 
 
+# where the handle stands when it is handed over for appending: a caller may have
+# looked at the file through it first
+POSITIONS = ["end", "end", "magic", "header", "mid", "one"]
+
+
 def gen_history(rng):
     family = rng.choice(["id"] * 5 + ["null", "record", "fixed"])
     cfg = {"family": family, "codec": rng.choice(CODECS), "interval": rng.choice([1, 40, 40, 10**6, 10**6]),
@@ -135,7 +140,7 @@ def gen_history(rng):
     for _ in range(n):
         x = rng.random()
         if x < 0.45:
-            ops.append(("write", rng.choice(["small", "small", "large"])))
+            ops.append(("write", rng.choice(["small", "small", "large"]) if rng.random() < 0.96 else "huge"))
         elif x < 0.60 and family == "id":
             ops.append(("write_bad", rng.choice(BAD_KINDS)))
         elif x < 0.75:
@@ -148,9 +153,11 @@ def gen_history(rng):
         elif x < 0.95:
             ops.append(("reopen", {"schema": rng.randrange(len(OTHER_SCHEMAS) + 1), "codec": rng.choice(CODECS + ["no-such-codec"]),
                                    "meta": rng.choice([None, {"other": "1"}]), "marker": rng.choice([b"", b"\x01" * 16]),
-                                   "flush_first": rng.random() < 0.7, "interval": rng.choice([1, 40, 10**6])}))
+                                   "flush_first": rng.random() < 0.7, "interval": rng.choice([1, 40, 10**6]),
+                                   "position": rng.choice(POSITIONS)}))
         else:
-            ops.append(("writer_fn", {"n": rng.randint(0, 4), "schema": rng.randrange(len(OTHER_SCHEMAS) + 1), "flush_first": rng.random() < 0.7}))
+            ops.append(("writer_fn", {"n": rng.randint(0, 4), "schema": rng.randrange(len(OTHER_SCHEMAS) + 1), "flush_first": rng.random() < 0.7,
+                                     "position": rng.choice(POSITIONS)}))
     ops.append(("flush",))
     return ops
 
@@ -397,6 +404,10 @@ def run_history(sh, fa, rng, ops):
             si = arg["schema"]
             other = family_schema(family) if si >= len(OTHER_SCHEMAS) else OTHER_SCHEMAS[si]
             reopens += 1
+            where = arg.get("position", "end")
+            if where != "end" and S.getvalue():
+                S.seek({"magic": 4, "header": len(header0), "mid": max(1, len(S.getvalue()) // 2), "one": 1}[where])
+                sh.count("append_handle_not_at_end")
             if kind == "reopen":
                 st, W = guard(Writer, S, copy.deepcopy(other), codec=arg["codec"], sync_interval=arg["interval"],
                               metadata=dict(arg["meta"]) if arg["meta"] else None, sync_marker=arg["marker"])
